@@ -1,6 +1,7 @@
 (* Property C11 — TS packet header and adaptation field per ISO 13818-1 (theorems only; proofs in Proofs/). *)
-From Coq Require Import ZArith List.
-Require Import Base.Bits Base.Iter Base.Wr Gen.Types Model.Clock Model.Packet Proofs.ClockProofs.
+From Coq Require Import ZArith List Lia.
+Require Import Base.Bits Base.Iter Base.Wr Gen.Types Model.Clock Model.Packet Spec.PesSpec Spec.PacketSpec
+  Proofs.ClockProofs Proofs.PacketProofs Proofs.PacketWrite Proofs.PacketRoundTrip Proofs.PacketRef Proofs.PacketExamples.
 Import ListNotations.
 Open Scope Z_scope.
 
@@ -17,3 +18,83 @@ Theorem C11_dts_roundtrip : forall flag base rest, 0 <= base < 2 ^ 33 ->
   Ok (mk_cr base 0, mk_iter (bytes_of_items (enc_pts_or_dts flag (mk_cr base 0)) ++ rest) 5).
 Proof. exact pts_roundtrip. Qed.
 Print Assumptions C11_dts_roundtrip.
+
+(* the 4-byte packet header behind the sync byte: all 2^13 PIDs, 16 counters, 4 scrambling values,
+   every combination of the five flag bits *)
+Theorem C11_header_roundtrip : forall h rest, wf_packet_header h ->
+  parse_packet_header (new_iter (bytes_of_items (enc_packet_header h) ++ rest)) =
+  Ok (h, mk_iter (bytes_of_items (enc_packet_header h) ++ rest) 3).
+Proof. exact header_roundtrip. Qed.
+Print Assumptions C11_header_roundtrip.
+Example C11_header_roundtrip_inhabited : wf_packet_header ex_header.
+Proof. exact ex_header_wf. Qed.
+
+(* whatever writePacket accepts comes out as exactly 188 bytes, sync byte first *)
+Theorem C11_write_188 : forall p bs, write_packet p 188 = Ok bs ->
+  length bs = 188%nat /\ exists rest, bs = 71 :: rest.
+Proof. exact write_packet_188. Qed.
+Print Assumptions C11_write_188.
+Example C11_write_188_inhabited : exists bs, write_packet ex_packet 188 = Ok bs.
+Proof. eexists. vm_compute. reflexivity. Qed.
+
+(* parsing what the writer emits for any conformant packet (every subset of the 5 optional parts and the 3
+   extension parts, adaptation_field_length 0..183, any field values within their widths, any stuffing length,
+   payload filling the rest) yields that packet, with the derived length fields filled in *)
+Theorem C11_parse_write : forall p, wf_packet p ->
+  exists bs, write_packet p 188 = Ok bs /\ length bs = 188%nat /\ parse_packet_bytes bs = Ok (observed p).
+Proof. exact parse_write_packet. Qed.
+Print Assumptions C11_parse_write.
+Example C11_parse_write_inhabited : wf_packet ex_packet.
+Proof. exact ex_packet_wf. Qed.
+
+(* writing any conformant packet yields its ISO 13818-1 reference encoding (Spec/PacketSpec.v: the field list of
+   Tables 2-2 and 2-6, reserved bits 1, stuffing 0xFF), which is exactly 188 bytes *)
+Theorem C11_write_ref : forall p, wf_packet p -> write_packet p 188 = Ok (ref_packet_bytes p).
+Proof. exact write_ref_packet. Qed.
+Print Assumptions C11_write_ref.
+Example C11_write_ref_inhabited : wf_packet ex_packet /\ length (ref_packet_bytes ex_packet) = 188%nat.
+Proof. split; [exact ex_packet_wf | vm_compute; reflexivity]. Qed.
+
+(* the bit string the writer produces is the bit string of the reference field list, field for field *)
+Theorem C11_write_ref_bits : forall p, wf_packet p -> items_bits (packet_items p) = fbits (ref_packet_fields p).
+Proof. exact packet_bits. Qed.
+Print Assumptions C11_write_ref_bits.
+
+(* parsing the reference encoding of any conformant packet yields that packet *)
+Theorem C11_parse_ref : forall p, wf_packet p -> parse_packet_bytes (ref_packet_bytes p) = Ok (observed p).
+Proof. exact parse_ref_packet. Qed.
+Print Assumptions C11_parse_ref.
+
+(* ... whatever the values of the adaptation field stuffing bytes (the reference layout with arbitrary stuffing) *)
+Theorem C11_parse_ref_any_stuffing : forall p sb, wf_packet p -> Z.of_nat (length sb) = stuffing_of p -> bytes_ok sb ->
+  parse_packet_bytes (ref_packet_bytes_stuffed p sb) = Ok (observed p).
+Proof. exact parse_ref_any_stuffing. Qed.
+Print Assumptions C11_parse_ref_any_stuffing.
+Example C11_parse_ref_any_stuffing_inhabited :
+  wf_packet ex_packet /\ Z.of_nat (length [0; 1; 254]) = stuffing_of ex_packet /\ bytes_ok [0; 1; 254] /\
+  ref_packet_bytes_stuffed ex_packet [0; 1; 254] <> ref_packet_bytes ex_packet.
+Proof.
+  split; [exact ex_packet_wf|]. split; [reflexivity|]. split; [repeat constructor; unfold byte_ok; lia|].
+  intros H. vm_compute in H. discriminate.
+Qed.
+
+(* a packet obtained from a conformant 188-byte buffer is re-emitted byte for byte *)
+Theorem C11_reemit : forall bs p, conformant bs -> parse_packet_bytes bs = Ok p -> write_packet p 188 = Ok bs.
+Proof. exact reemit_packet. Qed.
+Print Assumptions C11_reemit.
+Example C11_reemit_inhabited : conformant (ref_packet_bytes ex_packet) /\
+  exists p, parse_packet_bytes (ref_packet_bytes ex_packet) = Ok p.
+Proof.
+  split; [exists ex_packet; split; [exact ex_packet_wf | reflexivity]|].
+  eexists. vm_compute. reflexivity.
+Qed.
+
+(* finding K1: outside [conformant] — an adaptation field extension with trailing reserved bytes — re-emission changes
+   the extension length byte (the reserved bytes come back as adaptation field stuffing) *)
+Theorem C11_reemit_ext_refuted :
+  length k1_bytes = 188%nat /\
+  exists p, parse_packet_bytes k1_bytes = Ok p /\ write_packet p 188 = Ok k1_reemitted /\
+            k1_reemitted <> k1_bytes /\
+            firstn 6 k1_reemitted = firstn 6 k1_bytes /\ skipn 7 k1_reemitted = skipn 7 k1_bytes.
+Proof. exact k1_reemit_differs. Qed.
+Print Assumptions C11_reemit_ext_refuted.
